@@ -482,6 +482,13 @@ where
     }
 }
 
+#[cfg(all(test, feature = "verif-hooks"))]
+mod verif_replays {
+    //! Verification hook (feature `verif-hooks`, test builds only): replay tests kept in the
+    //! verification directory are compiled inside this module so that they can reach crate-private items.
+    include!(concat!(env!("VERIF_DIR"), "/replays/addrsort.rs"));
+}
+
 #[cfg(test)]
 mod test {
 
